@@ -418,7 +418,7 @@ def aln2(rng, reflen=None, qlen=None):
 
 def gen_gfa2(rng, canonical=True, nseg=None, nedges=None, ngaps=None, nfrags=None, nog=None, nug=None,
              ncustom=None, header=True, comments=True, tags=True, names=None, seqs=True,
-             group_nesting=True, gaps_in_sets=False, gaps_in_paths=False):
+             group_nesting=True, gaps_in_sets=False, gaps_in_paths=False, alias_tags=True):
     d = Gfa2Doc()
     nseg = nseg if nseg is not None else rng.randint(1, 6)
     pool = list(names or NAME_POOL_2)
@@ -464,6 +464,10 @@ def gen_gfa2(rng, canonical=True, nseg=None, nedges=None, ngaps=None, nfrags=Non
         if tags and rng.random() < 0.3:
             st.append((rng.choice(["RC", "FC", "KC"]), "i", str(rng.randint(0, 1000))))
         st += mk_tags([t[0] for t in st])
+        if tags and alias_tags and rng.random() < 0.08:
+            # LN is not a predefined tag of GFA2 segments (gfapy offers 'LN' as an alias of slen in
+            # its API): as a tag of the text it is a custom tag like any other
+            st.append(("LN", "i", str(rng.randint(0, 99))))
         d.segments.append({"sid": n, "slen": L, "seq": seq, "tags": st})
     nedges = nedges if nedges is not None else rng.randint(0, 2 * nseg)
     for _ in range(nedges):
